@@ -471,6 +471,20 @@ def fixup(ctx, fs):
             okr = True
     col = [(bb, t) for bb, t in fs.calls() if cname(t).endswith('Iterator::collect') or 'collect' in cname(t)]
     okc = any(try_edges(fs, bb) is not None and 'Result<' in fs.local_ty(t['dest']['l']) for bb, t in col)
+    if not (okr and okc):
+        # the explicit spelling: a loop over unresolved_names with `match names.get(&name) { Some(..) => push, None => return Err }`
+        for bb, t in fs.calls():
+            if not cname(t).endswith('HashMap::<K, V, S, A>::get') or 'names' not in origin(fs, t['args'][0]).fields or fs.is_cleanup(bb):
+                continue
+            for sb in sorted(fs.live_blocks()):
+                if fs.term(sb)['k'] != 'switch':
+                    continue
+                si = fs.switch_info(sb)
+                if si.get('kind') != 'enum' or si.get('adt') != 'core::option::Option' or not any(c is t for c in origin(fs, si['place']).calls):
+                    continue
+                nb = si['variants'].get('None', si['otherwise'] if 'None' in (si.get('otherwise_variants') or []) else None)
+                if nb is not None and all_paths_err(fs, nb):
+                    okr = okc = True
     ctx.ob('FIXUP', 'unknown-reference-errs', okr and okc, short_loc(fs.span), 'unresolved names are looked up with get(..).ok_or(Err) and collected with `?`: %s/%s' % (okr, okc))
 
 
